@@ -207,7 +207,7 @@ def preserved_gprs(obj, sym):
     E.stubs['*'] = abi.abi_stub
     st, rsp0 = abi.fresh_state(obj, 0)
     init = list(st.r)
-    fin = abi.run_with_budget(E, st, obj.syms[sym][1], time.time() + 120, 400000)
+    fin = abi.run_with_budget(E, st, obj.syms[sym][1], time.time() + 1800, 400000)
     if not fin:
         raise Inconclusive('kernel sweep of %s found no return path' % sym)
     keep = set(range(16)) - {4}
